@@ -36,23 +36,23 @@ var ctxNames = []string{"unjoined", "joined", "own", "foreign"}
 
 // grid pre-states for dagaz cases
 const (
-	GridFresh = iota
+	GridFresh    = iota
 	GridTwoQuads // two benign quads inserted first: the grid has been expanded and holds planes
 )
 
 type Case struct {
-	Idx    int
-	Name   string
-	Ctx    int
-	Grid   int
-	Module string // "core", "vikja", "odal", "dagaz", "raw"
-	Kind   string
-	Bytes  []byte   // the request, wire bytes (filled by Materialise)
-	Follow [][]byte // follow-up requests sent on the same connection afterwards (filled by Materialise)
+	Idx     int
+	Name    string
+	Ctx     int
+	Grid    int
+	Module  string // "core", "vikja", "odal", "dagaz", "raw"
+	Kind    string
+	Bytes   []byte   // the request, wire bytes (filled by Materialise)
+	Follow  [][]byte // follow-up requests sent on the same connection afterwards (filled by Materialise)
 	NFollow int
-	req    proto.Message
-	follow []proto.Message
-	Hostile bool    // non finite / huge magnitude numbers inside: expected to be refused, must not panic or exhaust memory
+	req     proto.Message
+	follow  []proto.Message
+	Hostile bool // non finite / huge magnitude numbers inside: expected to be refused, must not panic or exhaust memory
 }
 
 var stamp = &timestamppb.Timestamp{Seconds: 1700000000, Nanos: 1}
@@ -76,8 +76,8 @@ func mustMarshal(m proto.Message) []byte {
 func f32(bits uint32) float32 { return math.Float32frombits(bits) }
 
 type fval struct {
-	name string
-	v    float32
+	name    string
+	v       float32
 	hostile bool
 }
 
